@@ -429,7 +429,22 @@ def end_to_end(ctx, thorough, bind=""):
             th = threading.Thread(target=traffic, daemon=True)
             th.start()
             time.sleep(offset)
+            # somebody is connected to the statistics port when the signal comes: a monitoring probe that has connected and not yet
+            # asked (even cycles), a request half sent (odd cycles); neither may hold the exit up or change its status
+            import socket as _socket
+            probe = None
+            try:
+                probe = _socket.create_connection(("127.0.0.1", col.stats_port), timeout=2)
+                if cyc % 2:
+                    probe.sendall(b"GET /flow HTTP/1.1\r\nHost: x\r\n")
+            except OSError:
+                probe = None
             rc, secs = col.stop(sig, wait=10)
+            if probe is not None:
+                try:
+                    probe.close()
+                except OSError:
+                    pass
             stop_sending.set()
             th.join(timeout=5)
             ctx.count(["shutdown", scenario, cyc, offset, ctx.seed, bind])
